@@ -344,41 +344,62 @@ theorem applyAt_signature_full_refuted :
   intro h
   exact absurd (h 10 d4Host d4Match [] [.existing "x"] true) (by decide)
 
-/-! ## Initializers -/
+/-! ## Initializers (after fix 340a24c: a clashing new initializer is registered as `name_k`) -/
 
-/-- `FreshInitializerNames`: the names the replacement registers are pairwise distinct and not
-yet initializers of the graph. -/
-def FreshInitializerNames (g : Graph) (is : List (Name × String)) : Prop :=
-  (is.map (·.1)).Nodup ∧ ∀ x ∈ is.map (·.1), x ∉ g.initNames
+/-- **Unconditional** (no `FreshInitializerNames` hypothesis): whatever names the replacement asks
+for, registration only appends — every node, input, output and every existing initializer (name
+and value, in place) is untouched; one initializer per request is added with the requested value,
+under names that are new to the graph and pairwise distinct.  What remains outside the theorem:
+that the search for a free `name_k` succeeds (`registerInits … = some _`; the rendering searches
+`k ≤ |initializers|+1`, a free one exists by counting, which is not proved — the tie exercises it). -/
+theorem registerInits_adds_only (g g' : Graph) (is is' : List (Name × String))
+    (h : registerInits g is = some (g', is')) :
+    g'.nodes = g.nodes ∧ g'.inputs = g.inputs ∧ g'.outputs = g.outputs ∧ g'.inits = g.inits ++ is' ∧
+    is'.map (·.2) = is.map (·.2) ∧ (∀ y ∈ is'.map (·.1), y ∉ g.initNames) ∧ (is'.map (·.1)).Nodup :=
+  registerInits_spec is g g' is' h
 
-/-- Under `FreshInitializerNames` registration only appends: every node, input, output and
-every existing initializer (name and value) is untouched and the needed ones are present. -/
-theorem registerInits_adds_only (d : Nat) (g : Graph) (is : List (Name × String))
-    (h : FreshInitializerNames g is) :
-    (registerInits d g is).nodes = g.nodes ∧ (registerInits d g is).inputs = g.inputs ∧
-    (registerInits d g is).outputs = g.outputs ∧ (registerInits d g is).inits = g.inits ++ is := by
-  rw [registerInits_fresh d is g h.1 h.2]
-  cases g; simp [Graph.setInits, Graph.nodes, Graph.inputs, Graph.outputs, Graph.inits]
-
-/-! ### D18 (= finding C09-N3, the same defect reached through `optimize()`) — without
-`FreshInitializerNames` the statement is false -/
+/-- names that are free are kept as requested -/
+theorem registerInits_keeps_free_name (g : Graph) (x : Name) (t : String) (h : x ∉ g.initNames) :
+    registerInits g [(x, t)] = some (g.setInits (g.inits ++ [(x, t)]), [(x, t)]) := by
+  simp [registerInits, freshInitName, h]
 
 def d18Host : Graph :=
   .mk ["x"] [("one", "A")]
     [.mk 1 "Mul" "" "" [some "x", some "one"] ["a"] [] [] [] [],
      .mk 2 "Relu" "" "" [some "a"] ["z"] [] [] [] []] ["z"]
 
-/-- Registering `one` again (as the second firing of any rule that names its initializer does)
-detaches the first registration: the `Mul` that used it now reads a value that is no initializer
-(`†one`), i.e. a host node *is* touched and the graph is no longer well-formed. -/
-theorem registerInits_full_refuted :
+/-- regression: the D18 witness is now harmless — the second `one` becomes `one_1`, the `Mul` still
+reads the first, the graph stays well-formed -/
+theorem d18_fixed :
+    (registerInits d18Host [("one", "A")]).map (fun r => (r.2.map (·.1), r.1.nodes.map (·.inputs), wfGraph [] r.1)) =
+      some (["one_1"], d18Host.nodes.map (·.inputs), true) := by
+  decide +kernel
+
+/-! ### D18 (= finding C09-N3), the code before the fix -/
+
+/-- `FreshInitializerNames`: the names the replacement registers are pairwise distinct and not
+yet initializers of the graph — the hypothesis the pre-fix code needed. -/
+def FreshInitializerNames (g : Graph) (is : List (Name × String)) : Prop :=
+  (is.map (·.1)).Nodup ∧ ∀ x ∈ is.map (·.1), x ∉ g.initNames
+
+theorem registerInitsPrefix_adds_only (d : Nat) (g : Graph) (is : List (Name × String))
+    (h : FreshInitializerNames g is) :
+    (registerInitsPrefix d g is).nodes = g.nodes ∧ (registerInitsPrefix d g is).inputs = g.inputs ∧
+    (registerInitsPrefix d g is).outputs = g.outputs ∧ (registerInitsPrefix d g is).inits = g.inits ++ is := by
+  rw [registerInitsPrefix_fresh d is g h.1 h.2]
+  cases g; simp [Graph.setInits, Graph.nodes, Graph.inputs, Graph.outputs, Graph.inits]
+
+/-- Before 340a24c, registering `one` again (the second firing of any rule that names its
+initializer) detached the first registration: the `Mul` that used it read a value that was no
+initializer (`†one`) — a host node *was* touched and the graph was no longer well-formed. -/
+theorem registerInits_prefix_refuted :
     ¬ (∀ (d : Nat) (g : Graph) (is : List (Name × String)),
-        (registerInits d g is).nodes.map (·.inputs) = g.nodes.map (·.inputs)) := by
+        (registerInitsPrefix d g is).nodes.map (·.inputs) = g.nodes.map (·.inputs)) := by
   intro h
   exact absurd (h 10 d18Host [("one", "A")]) (by decide)
 
-theorem d18_result_not_wf :
-    wfGraph [] d18Host = true ∧ wfGraph [] (registerInits 10 d18Host [("one", "A")]) = false := by
+theorem d18_prefix_result_not_wf :
+    wfGraph [] d18Host = true ∧ wfGraph [] (registerInitsPrefix 10 d18Host [("one", "A")]) = false := by
   decide
 
 /-! ## Opset imports -/
@@ -507,18 +528,56 @@ theorem asFunction_closed (g : Graph) (po : List (String × Nat)) (funcs : List 
       have h2 := List.all_eq_true.mp h1 x hx
       simpa using h2
 
-/-! ### C07-D5 — a match inside a body: the function is built from the body's own opset imports -/
+/-! ### opset imports of the extracted function (after fix 35ad500; C07-D5 before it) -/
+
+/-- Since 35ad500 the function's imports are filtered from the model's imports overridden by the
+container's own (`mergeOpsets`).  Hence, wherever the match sits — main graph, function body, or an
+`If`/`Loop` body whose own import dict is empty — **every domain the function's nodes use and the
+model imports is imported by the function**, at the container's version when the container
+declares one, else at the model's. -/
+theorem asFunction_imports_used (g : Graph) (main lo : List (String × Nat)) (funcs : List Func) (m : Match)
+    (call call' : Node) (fn : Func)
+    (h : asFunction g (mergeOpsets main lo) funcs m [call] = some (call', fn)) :
+    ∀ n ∈ fn.body.nodes, ∀ v, main.lookup n.domain = some v →
+      fn.opsets.lookup n.domain = some ((lo.lookup n.domain).getD v) := by
+  intro n hn v hv
+  have hs := asFunction_structure g _ funcs m call call' fn h
+  rw [hs.1] at hn
+  unfold asFunction at h
+  simp only at h
+  split at h
+  · exact absurd h (by simp)
+  · split at h
+    · exact absurd h (by simp)
+    · split at h
+      · exact absurd h (by simp)
+      · simp only [Option.some.injEq, Prod.mk.injEq] at h
+        obtain ⟨_, h2⟩ := h
+        subst h2
+        simp only
+        rw [lookup_filter_key (mergeOpsets main lo)
+          (fun k => ((g.nodes.filter fun n => m.nodes.contains n.id).map (·.domain)).contains k) n.domain
+          (by simpa using ⟨n, by simpa using hn, rfl⟩)]
+        exact mergeOpsets_lookup_main main lo n.domain v hv
 
 def d5Body : Graph :=
   .mk [] [] [.mk 1 "Neg" "" "" [some "x"] ["n"] [] [] [] [], .mk 2 "Relu" "" "" [some "n"] ["t"] [] [] [] []] ["t"]
+def d5Match : Match := { root := 2, nodes := [2, 1], bindings := [(0, some "x")], outputs := ["t"] }
+def d5Call : Node := .mk 3 "NR" "local" "" [some "x"] ["%3_0"] [] [] [] []
 
-/-- In a body `graph_or_function.opset_imports` is the body's own dict (empty after
-deserialisation; the call's domain is all `try_rewrite` put there): the function that now holds
-`Neg`/`Relu` imports no opset for the default domain (replayed: onnx.checker "No Opset registered
-for domain"). -/
-theorem asFunction_in_body_no_opset :
-    ∃ call fn, asFunction d5Body [("local", 1)] [] { root := 2, nodes := [2, 1], bindings := [(0, some "x")], outputs := ["t"] }
-        [.mk 3 "NR" "local" "" [some "x"] ["%3_0"] [] [] [] []] = some (call, fn) ∧
+/-- regression (the C07-D5 witness): a match inside an `If` body, whose own import dict holds only
+what `try_rewrite` put there (`local`); the model imports the default domain at 18 — the function
+holding `Neg`/`Relu` now imports it -/
+theorem asFunction_in_body_has_opset :
+    ∃ call fn, asFunction d5Body (mergeOpsets [("", 18)] [("local", 1)]) [] d5Match [d5Call] = some (call, fn) ∧
+      fn.opsets.lookup "" = some 18 ∧ fn.body.nodes.any (·.domain == "") = true := by
+  refine ⟨_, _, rfl, ?_, ?_⟩ <;> decide
+
+/-- Before 35ad500 the imports were filtered from the container's own dict alone: in a body that
+dict is empty after deserialisation, so the function holding `Neg`/`Relu` imported no opset for the
+default domain (replayed then: onnx.checker "No Opset registered for domain"). -/
+theorem asFunction_in_body_prefix_refuted :
+    ∃ call fn, asFunction d5Body [("local", 1)] [] d5Match [d5Call] = some (call, fn) ∧
       fn.opsets.lookup "" = none ∧ fn.body.nodes.any (·.domain == "") = true := by
   refine ⟨_, _, rfl, ?_, ?_⟩ <;> decide
 
